@@ -30,8 +30,11 @@ FamAlign == "C38|padding-from-offset-base-align-1"
 FamOob   == "C38|offset-kept-on-buffer-switch"
 
 Addr(o) == [hi |-> o.hi, lo |-> o.lo]
-\* observed distance q - p for two addresses known to be close (same buffer), as an integer
-Dist(p, q) == (q.hi - p.hi) * 1048576 + (q.lo - p.lo)
+\* observed distance q - p of two addresses as an integer
+\* (saturated: allocations in different heap blocks may be further apart than a 32-bit integer can say)
+Dist(p, q) == IF q.hi - p.hi > 1000 THEN 2000000000
+              ELSE IF p.hi - q.hi > 1000 THEN -2000000000
+              ELSE (q.hi - p.hi) * 1048576 + (q.lo - p.lo)
 
 Viol(rec) ==
   LET n  == Len(rec.steps)
